@@ -13,6 +13,7 @@ event per read_chunk return is recorded and TLC validates each trace against the
 """
 import gzip
 import json
+import numpy as np
 import os
 import random
 
@@ -38,11 +39,18 @@ RULE = ("A: one case = one completed behaviour of ChunkReader L1 (entry-shape se
         "more than one raw read / a cut inside the file happens; distinct by full configuration")
 
 
-def read_chunked(fmt, data, K, lazy, prepend, hdr_len=0):
-    """Run the real chunked reader; returns dict(chunks=[rows...], status, sizes, reads, lines)."""
+def _join(tables):
+    """the chunks concatenated in order by the library itself (np.concatenate), as the property words it"""
+    return tables[0] if len(tables) == 1 else np.concatenate(tables)
+
+
+def read_chunked(fmt, data, K, lazy, prepend, hdr_len=0, joined=False):
+    """Run the real chunked reader; returns dict(chunks=[rows...], status, sizes, reads, lines).
+    joined: the chunk tables are kept and concatenated by np.concatenate; the result is delivered as one chunk."""
     rd, f, r = formats.open_reader(fmt, data, lazy, prepend)
     calls = _tap_read_chunk(rd)
     chunks = []
+    tables = []
     sizes = []
     lines = []
     status = "Stop"
@@ -59,14 +67,24 @@ def read_chunked(fmt, data, K, lazy, prepend, hdr_len=0):
         c = o[1]
         if c is None:
             break
+        if joined:
+            tables.append(c)
+            continue
         p = outcome(formats.project_table, c)
         if p[0] == "err":
             status, msg = "Fail", "projection: " + p[1]
             break
         chunks.append(p[1])
+    if joined and status == "Stop" and tables:
+        p = outcome(lambda: formats.project_table(_join(tables)))
+        if p[0] == "err":
+            status, msg = "JoinFail", "np.concatenate of the chunks: " + p[1]
+        else:
+            chunks.append(p[1])
     reads = [x[2] for x in f.log if x[0] == "read"]
     sizes = [c[1] for c in calls if c[0] > 0]
-    lines = [c[2] for c in calls if c[0] > 0][:len(chunks)]
+    lines = [c[2] for c in calls if c[0] > 0]
+    lines = lines[-1:] if joined else lines[:len(chunks)]
     return {"chunks": chunks, "status": status, "msg": msg, "sizes": sizes, "reads": reads, "lines": lines}
 
 
@@ -149,6 +167,13 @@ def check_vector(v):
             if res["sizes"] != v["sizes"] or res["reads"] != v["reads"] or (res["lines"] and res["lines"][-1] != v["lines"]):
                 drift.append({"cfg": cfg, "family": fam, "model": {"sizes": v["sizes"], "reads": v["reads"], "lines": v["lines"]},
                               "code": {"sizes": res["sizes"], "reads": res["reads"], "lines": res["lines"][-1:]}})
+        # the same chunks concatenated by the library (np.concatenate) instead of row by row
+        resj = read_chunked(fmt, data, K, lazy, cfg["mode"] == "prepend", joined=True)
+        n += 1
+        gotj = [r for c in resj["chunks"] for r in c]
+        if resj["status"] == "JoinFail" or (resj["status"] == "Stop" and res["status"] == "Stop" and gotj != rows):
+            bad.append({"what": "np.concatenate of the chunks differs from the file's entries", "tags": dict(tags0, lazy=lazy, op="read_chunks+concatenate"),
+                        "vector": v, "expected": rows, "observed": resj["msg"] or gotj})
     nt = ["%s|%s" % (fam, json.dumps(cfg, sort_keys=True))] if K < cfg["flen"] else []
     return {"n": n, "nt": nt, "bad": bad, "drift": drift[:1]}
 
@@ -164,7 +189,9 @@ def record_trace(job):
     K = job["K"]
     src = job["src"]
     if src in ("mem", "mem-carry"):
-        res = read_chunked(fmt, data, K, job["lazy"], src == "mem-carry")
+        res = read_chunked(fmt, data, K, job["lazy"], src == "mem-carry", joined=bool(job.get("joined")))
+        if res["status"] == "JoinFail":
+            res["status"] = "Stop"          # the read completed; what it delivered could not be concatenated: nothing delivered, Stop is rejected
     else:
         import bionumpy as bnp
         suffix = formats.FORMATS[fmt]["suffix"] + (".gz" if src == "gzip" else "")
@@ -247,7 +274,7 @@ def validate_traces(ctx, recs, tag="Trace_C01"):
         j = r["meta"]["job"]
         bad.append({"what": "recorded execution rejected by L0: " + clause,
                     "tags": {"format": j["fmt"], "src": j["src"], "lazy": j["lazy"], "crlf": j["crlf"],
-                             "finalnl": j["finalnl"], "clause": clause.split(":")[0], "binding": "B", "mode": "chunk-then-read" if j.get("then_read") else "chunks"},
+                             "finalnl": j["finalnl"], "clause": clause.split(":")[0], "binding": "B", "mode": "chunk-then-read" if j.get("then_read") else ("chunks-joined" if j.get("joined") else "chunks")},
                     "group": {"format": j["fmt"], "src": j["src"], "clause": clause},
                     "trace_job": j, "expected": "all %d entries in order" % r["trace"]["n"],
                     "observed": {"events": r["trace"]["events"], "msg": r["meta"]["msg"]}})
@@ -260,7 +287,7 @@ def _jobs(ctx, quick):
     tid = 0
     d = ctx.work
     # small files, every K: all formats (incl. the exact ones through real files / gzip)
-    small_formats = ["bed6", "bedgraph", "narrowpeak", "vcf", "sam", "gtf"]
+    small_formats = ["bed6", "bedgraph", "narrowpeak", "vcf", "vcfd", "sam", "gtf"]
     for fmt in small_formats:
         for n in ((1, 2, 3) if quick else (1, 2, 3, 4)):
             for wsel in range(2 if quick else 3):
@@ -277,6 +304,11 @@ def _jobs(ctx, quick):
                                 tid += 1
                                 jobs.append(dict(tid=tid, fmt=fmt, specs=specs, crlf=crlf, finalnl=finalnl, K=K,
                                                  src=src, lazy=lazy, dir=d))
+                                if n >= 2 and K <= body // 2 + 1:
+                                    # several chunks, concatenated by np.concatenate and delivered as one table
+                                    tid += 1
+                                    jobs.append(dict(tid=tid, fmt=fmt, specs=specs, crlf=crlf, finalnl=finalnl, K=K,
+                                                     src=src, lazy=lazy, dir=d, joined=True))
     # exact formats through real plain and gzip files
     for fam, (_, _, fmt) in FAMILIES.items():
         shapes = SHAPES[fam]
